@@ -96,7 +96,7 @@ def run(prop, tier, seed, replay=None):
              "RecInt K = 6…9 (10 in thorough, configuration R): moduli of every bit length 2 … 2^K (all lengths for K = 6, and for K = 7 in thorough; limb-boundary "
              "lengths ±1 and 10 (thorough: 60) random lengths otherwise) in the shapes 2^L-1, 2^(L-1)+1, random, top-limb-all-ones, limb-structured; residues corner set + "
              "limb-structured; exponents {0,1,2,p-2,p-1,2^(2^K)-1,2^(2^K-1),2^64,…}; Montgomery and non-Montgomery rmint on the same "
-             "inputs; built-in scalars of both signs; random histories (3 … 40 steps over 14 operations on 5 registers, sources may coincide).  distinct = distinct (key, arguments); non-trivial = some operand outside {0,1}",
+             "inputs; built-in scalars of both signs; sources FAR OUTSIDE [0,p) for every construction / assignment / conversion path (every magnitude class 0, p-1, p, p+1, 2p-1, 2p, 2p+1, k*p-1, k*p, k*p+1 for the largest and a random k, top, top/2 of: ruint<K> words, the same words read as rint<K> (both signs, the minimum), the eight machine integer types with their minima and maxima, integer-valued doubles, big integers beyond the radix of both signs) for small, medium and maximal moduli, both rmint variants against each other and against c mod p; == with scalars outside [0,p); random histories (3 … 40 steps over 14 operations on 5 registers, sources may coincide).  distinct = distinct (key, arguments); non-trivial = some operand outside {0,1}",
         extra={"lines_by_key": by_key, "moduli_32bit": len(moduli32), "moduli_recint": len(moduliR),
                "configs": sorted(bins), "timing_s": {"lean": round(L["t"], 1), "harness_build": round(t_build, 1),
                                                       "correspondence": round(t_corr, 1)}},
